@@ -170,6 +170,7 @@ def run_check(pid, tier, seed, replay=None):
     mod = importlib.import_module("harness.drivers." + pid.lower())
     ctx = Ctx(pid, tier, seed)
     out = Outcome(pid)
+    machinery = None
     try:
         if replay:
             with open(replay, "r", encoding="utf-8") as f:
@@ -179,11 +180,15 @@ def run_check(pid, tier, seed, replay=None):
     except tlc.MachineryError as ex:
         print("MACHINERY-FAILURE property=%s %s" % (pid, ex), flush=True)
         traceback.print_exc()
-        return 2
+        machinery = ex
     except Exception as ex:  # pylint: disable=broad-except
         print("MACHINERY-FAILURE property=%s unexpected %s: %s" % (pid, type(ex).__name__, ex), flush=True)
         traceback.print_exc()
+        machinery = ex
+    if machinery is not None and not out.violations:
         return 2
+    # a machinery failure AFTER property violations were reproduced on the real code does not take them back: they are reported
+    # (exit 1 if one of them is not a listed finding, else exit 2 for the machinery failure)
     findings = load_findings()
     new = []
     known = {}
@@ -215,7 +220,11 @@ def run_check(pid, tier, seed, replay=None):
         path = save_replay(pid, v.case)
         print("VIOLATION property=%s replay=%s clause=%s %s" % (pid, path, v.clause, v.detail), flush=True)
         rc = 1
+    if machinery is not None:
+        out.notes.append("machinery failure after the violations were collected: %s" % str(machinery)[:300])
     write_evidence(pid, tier, seed, out, time.time() - t0, len(new))
+    if machinery is not None and rc == 0:
+        return 2
     print(
         "%s property=%s tier=%s states=%d traces_validated=%d evaluations=%d distinct=%d drift=%d wall=%.1fs"
         % ("FAIL" if rc else "OK", pid, tier, out.states, out.traces_validated, out.evaluations, len(out.distinct), len(out.drift), time.time() - t0),
